@@ -15,12 +15,15 @@ if [ ! -x $W/base/sylt ]; then
 fi
 (cd $REPO && CARGO_TARGET_DIR=$W/cur-target cargo build --offline -q -p sylt 2>/dev/null) || { echo "build failed"; exit 2; }
 cp $W/cur-target/debug/sylt $W/cur-sylt
-same=0; diff=0; n=0
+same=0; diff=0; n=0; bad=0; badold=0
 for f in $(cd $REPO && find tests -name '*.sy' | sort); do
   n=$((n+1))
   (cd $REPO && timeout 20 $W/base/sylt -o $W/a.lua $f > $W/a.out 2>&1; echo "exit=$?" >> $W/a.out)
   (cd $REPO && timeout 20 $W/cur-sylt -o $W/b.lua $f > $W/b.out 2>&1; echo "exit=$?" >> $W/b.out)
+  if [ -n "${LUACHECK:-}" ] && [ -f $W/b.lua ]; then cp $W/b.lua $W/b_raw.lua; /verif/tools/luacheck.py $W/b_raw.lua || { bad=$((bad+1)); echo "UNPARSABLE(new) $f"; }; fi
+  if [ -n "${LUACHECK:-}" ] && [ -f $W/a.lua ]; then /verif/tools/luacheck.py $W/a.lua >/dev/null || { badold=$((badold+1)); }; fi
+  if [ -n "${NORMALIZE:-}" ] && [ -f $W/b.lua ]; then sed -E -i "$NORMALIZE" $W/b.lua; [ -f $W/a.lua ] && sed -E -i "$NORMALIZE" $W/a.lua; fi
   if cmp -s $W/a.out $W/b.out && { cmp -s $W/a.lua $W/b.lua || ! grep -q "exit=0" $W/a.out; }; then same=$((same+1)); else diff=$((diff+1)); echo "DIFF $f"; fi
   rm -f $W/a.lua $W/b.lua
 done
-echo "programs=$n same=$same different=$diff"
+echo "programs=$n same=$same different=$diff unparsable_new=$bad unparsable_old=$badold"
